@@ -55,6 +55,7 @@ def cases(tier, seed):
     for nside in (1, 2, 4):
         for k in range(3):
             out.append(('pix', nside, seed * 1000 + k))
+    out.append(('detectors',))
     return out
 
 
@@ -74,9 +75,12 @@ def _pointing(ns, ndet, ndir, seed):
     return theta, phi, pa, dx, dy
 
 
+DET_Z = 0.57   # focal-plane units: the inputs are deliberately not unit vectors
+
+
 def _detectors(dx, dy):
     from furax.detectors import DetectorArray
-    return DetectorArray(dx, dy, 1.0)
+    return DetectorArray(dx, dy, DET_Z)
 
 
 class _shims:
@@ -112,7 +116,34 @@ def run_case(key, twin=False):
         return _rot(key, twin)
     if key[0] == 'pix':
         return _pix(key)
+    if key[0] == 'detectors':
+        return _detector_array()
     return _model(key, twin)
+
+
+def _detector_array():
+    """Concrete: DetectorArray (pure NumPy, not traceable) stores the unit vector of (x, y, z) for any broadcastable, non-unit input."""
+    from furax.detectors import DetectorArray
+    rng = np.random.default_rng(5)
+    bad, n = [], 0
+    for shape, zkind in [((3,), 'scalar'), ((3,), 'array'), ((2, 3), 'scalar'), ((2, 3), 'array'), ((1,), 'scalar'), ((4, 1), 'row')]:
+        for scale in (1.0, 0.57, 3.0):
+            x, y = rng.uniform(-0.3, 0.3, shape), rng.uniform(-0.3, 0.3, shape)
+            z = scale if zkind == 'scalar' else (rng.uniform(0.4, 2.0, shape) if zkind == 'array' else rng.uniform(0.4, 2.0, (1, 3)))
+            det = DetectorArray(x, y, z)
+            full = np.broadcast_arrays(x, y, z)
+            want = np.stack(full) / np.sqrt(sum(c ** 2 for c in full))
+            got = np.asarray(det.coords)
+            n += 1
+            if got.shape != want.shape or tuple(det.shape) != want.shape[1:] or len(det) != int(np.prod(want.shape[1:])):
+                bad.append(f'shape {got.shape} / {det.shape} for inputs {shape}, z {zkind}')
+            elif not np.allclose(got, want, rtol=1e-12, atol=1e-14):
+                k = np.unravel_index(np.argmax(np.abs(got - want)), got.shape)
+                bad.append(f'inputs {shape}, z {zkind} x{scale}: coords{tuple(int(i) for i in k)} = {got[k]:.6f}, unit vector of (x, y, z) has {want[k]:.6f}')
+    # the pointing model itself must be built on the constructor ARGUMENTS: a boresight offset in focal-plane units
+    if bad:
+        return violation('DetectorArray does not store the unit direction of (x, y, z): ' + '; '.join(bad[:3]), signature='c16-detector-array', kind='detectors')
+    return ok(obligations=0, concrete_checks=n, nontrivial=True, sample=dict(case='DetectorArray normalisation', layouts=n))
 
 
 class _Captured(Exception):
@@ -306,7 +337,9 @@ def _pix(key):
     if len(ix) != 1:
         return violation('projection operator does not contain exactly one IndexOperator', signature='c16-pix-structure', kind='pix')
     got = np.asarray(ix[0].indices[0])
-    d = np.asarray(det.coords)  # (3, ndet, ndir)
+    # expected directions from the constructor ARGUMENTS (not from det.coords, which is what is being checked)
+    d = np.stack([dx, dy, np.full_like(dx, DET_Z)])
+    d = d / np.linalg.norm(d, axis=0)      # (3, ndet, ndir)
     bad, checked, skipped_n = [], 0, 0
     for t in range(ns):
         a, b, g = phi[t], theta[t], pa[t]
@@ -336,7 +369,7 @@ def replay(key, model, info):
         key, twin = key[1], True
     key = _tuplify(key)
     kind = info.get('kind') or ''
-    if key[0] in ('pix',) or kind in ('build', 'idx-shape', 'acq-shape', 'shape', 'hits-struct', 'rot-shape'):
+    if key[0] in ('pix', 'detectors') or kind in ('build', 'idx-shape', 'acq-shape', 'shape', 'hits-struct', 'rot-shape'):
         r = run_case(key)
         return r['status'] == 'violation', r.get('what', 'ok')
     if key[0] == 'rot':
